@@ -12,6 +12,7 @@ import (
 	"runtime"
 	"strings"
 	"sync"
+	"time"
 
 	"filippo.io/age/internal/verifhook"
 	"filippo.io/age/xverif/internal/conc"
@@ -19,6 +20,19 @@ import (
 
 type history struct {
 	Progs [][]string `json:"progs"`
+}
+
+// waitOrDeadlock waits for the goroutines of one mix; operations that each return when run alone and do not return when
+// run together are reported as a deadlock (exit status 4).
+func waitOrDeadlock(wg *sync.WaitGroup, what string) {
+	done := make(chan struct{})
+	go func() { wg.Wait(); close(done) }()
+	select {
+	case <-done:
+	case <-time.After(120 * time.Second):
+		fmt.Printf("DEADLOCK %s: the goroutines did not finish within 120 s\n", what)
+		os.Exit(4)
+	}
 }
 
 func main() {
@@ -75,7 +89,7 @@ func main() {
 				}(p)
 			}
 			close(start)
-			wg.Wait()
+			waitOrDeadlock(&wg, fmt.Sprintf("kind=%s history=%v", kind, h.Progs))
 			for p := range results {
 				for _, r := range results[p] {
 					ops++
@@ -107,12 +121,16 @@ func main() {
 				defer wg.Done()
 				<-start
 				for r := 0; r < *stress; r++ {
-					res[p] = append(res[p], s.Do("dec"))
+					op := "dec"
+					if (r+p)%4 == 0 {
+						op = "enc" // encryptions in the mix: what limits or serialises them must not depend on who else is running
+					}
+					res[p] = append(res[p], s.Do(op))
 				}
 			}(p)
 		}
 		close(start)
-		wg.Wait()
+		waitOrDeadlock(&wg, fmt.Sprintf("kind=%s stress", kind))
 		for p := range res {
 			for _, r := range res[p] {
 				ops++
